@@ -66,6 +66,9 @@ def run(ctx):
     # 0..K-1 (a counter carried over between columns leaves labels that own no samples)
     from . import c12, cyclevec
     c12.rule_labelling(ctx, 'C16.R5', cyclevec.get(ctx, False, False), 'return_good=False')
+    c12.rule_canonical_inputs(ctx, 'C16.R5')
+    from . import c19
+    c19.rule_ensure_sites(ctx, 'C16.R5', only={cyclevec.GCV})
     rule_dead_contiguity_guards(ctx)
 
 
